@@ -18,7 +18,7 @@ from pathlib import Path
 VERIF = Path(__file__).resolve().parent.parent
 
 ISAS = {
-    "arm": dict(use_objdump=True, objdump=["--triple=armv7"], triple="armv7", mattr="", mc=[], nop=bytes.fromhex("00f020e3"), sentinel=bytes.fromhex("a5c0a0e3")),
+    "arm": dict(use_objdump=True, triple="armv7", mattr="", mc=[], nop=bytes.fromhex("00f020e3"), sentinel=bytes.fromhex("a5c0a0e3")),
     "thumb": dict(use_objdump=True, inst_n=True, triple="thumbv7em", mattr="", mc=[], nop=bytes.fromhex("c046"), sentinel=bytes.fromhex("5abe")),
     "x86_64": dict(use_objdump=True, objdump=["--x86-asm-syntax=intel"], triple="x86_64", mattr="", mc=["--output-asm-variant=1"], nop=b"\x90", sentinel=bytes.fromhex("b85a5a5a5a")),
     "msp430": dict(triple="msp430", mattr="", mc=[], nop=bytes.fromhex("0343"), sentinel=bytes.fromhex("3f405a5a")),
